@@ -375,7 +375,7 @@ MANIFEST_TEXT["C03"] = dict(
 )
 MANIFEST_TEXT["C04"] = dict(
     technique="Kani/CBMC bounded model checking of escape_string and write_sample against a reference renderer written in the harness, number rendering abstracted by injective markers",
-    level="Solver verdict for escape_string over every 1-byte string of the escape classes (quick; 2-3 bytes and multi-byte neighbours in thorough) and for write_sample without labels over every f64 bit pattern (marker rendering). Small bounds only: see DESIGN A.5 for what is outside.",
+    level="Solver verdict for write_sample over every f64 bit pattern: the sample line is the name followed by the value's exact rendering (marker = bit pattern under Kani, std's Display natively) and a newline. The per-type layout / escaping harnesses exist in the thorough tier but did not produce a verdict within their caps (DESIGN A.5/A.8): the escaping clause and the family layout are NOT decided.",
     note="Trusted: find_first_occurence stub (naive search), f64/i64 Display markers (std's number formatting and its round trip with FromStr are assumed), fixed-buffer WriteUtf8 writer.",
 )
 MANIFEST_TEXT["C07"] = dict(
@@ -399,7 +399,7 @@ MANIFEST_TEXT["C17"] = dict(
     note="Trusted: std::fmt::format stubbed, f64 Display marker, find_first_occurence stub.",
 )
 
-CLAIMED = ["C01", "C05", "C08", "C09", "C11", "C12", "C18"]
+CLAIMED = ["C01", "C02", "C03", "C04", "C05", "C06", "C08", "C09", "C10", "C11", "C12", "C15", "C17", "C18"]
 MANIFEST_TEXT["C08"] = dict(
     technique="bounded model checking (Kani/CBMC + CaDiCaL) of check_and_adjust_buckets, HistogramCore::observe/proto and LocalHistogramCore over all f64 bit patterns",
     level="Solver verdict over every f64 bit pattern for bucket lists of length 0-3 and 1-2 observations: acceptance rule, cumulative counts, count and bit-exact sum; unwinding assertions on. Bounded, not a proof.",
